@@ -113,6 +113,7 @@ public:
     { double pr = next(); e->patm_x = (pr >= 1.0) ? pr : 1.0; }       // v[2]: pressure (atm), the branch patm_x > 1 of pitzer()
     std::vector<double> zsave;
     std::vector<int> tsave;
+    std::vector<double> asave;
     for (size_t j = 0; j < e->s_list.size(); j++) {
       class species* sp = e->spec[e->s_list[j]];
       sp->lm = next();
@@ -122,6 +123,7 @@ public:
     for (size_t j = 0; j < e->param_list.size(); j++) {
       class pitz_param* p = pp[e->param_list[j]];
       if (p->type == TYPE_ALPHAS) continue;
+      for (int q = 0; q < 6; q++) asave.push_back(p->a[q]);
       p->a[0] = next();
       p->a[1] = next() * 100.0;
       p->a[2] = next();
@@ -137,7 +139,9 @@ public:
     pz(e, tag, o);
     // restore what was altered beyond numbers (charges, parameter types, pressure)
     for (size_t j = 0; j < e->s_list.size(); j++) e->spec[e->s_list[j]]->z = zsave[j];
-    { size_t q = 0; for (size_t j = 0; j < e->param_list.size(); j++) { class pitz_param* p = pp[e->param_list[j]]; if (p->type == TYPE_ALPHAS) continue; if (q < tsave.size()) p->type = (pitz_param_type)tsave[q++]; } }
+    { size_t q = 0; for (size_t j = 0; j < e->param_list.size(); j++) { class pitz_param* p = pp[e->param_list[j]]; if (p->type == TYPE_ALPHAS) continue; if (q < tsave.size()) { p->type = (pitz_param_type)tsave[q]; for (int r = 0; r < 6; r++) p->a[r] = asave[6 * q + r]; q++; } } }
+    e->OTEMP = -100.0;
+    e->OPRESS = -100.0;
     e->patm_x = 1.0;
   }
 
